@@ -7,7 +7,7 @@
 //! The programs are C01.fn programs: the Lean model recomputes the exporter's tree and both semantics for each of them.
 
 /// conditions over `float a, float b, int k` (name, text)
-pub const CONDS: [(&str, &str); 16] = [
+pub const CONDS: [(&str, &str); 18] = [
     ("lt", "a < b"),
     ("le", "a <= b"),
     ("gt", "a > b"),
@@ -24,6 +24,9 @@ pub const CONDS: [(&str, &str); 16] = [
     ("float-int", "a <= k"),
     ("int", "k < 2"),
     ("cmp-eq-cmp", "(a < b) == (k < 2)"),
+    // conditions with a side effect: an empty body does not make the statement removable
+    ("side-effect", "k++ < 2"),
+    ("side-effect-float", "(a += 1.0f) < b"),
 ];
 
 /// the six ordering / equality comparisons and a negation: used for the full then x else product
@@ -57,7 +60,7 @@ pub const GRID: [(u32, u32, u32); 16] = [
     (0xffc0_0000, 0xbf80_0000, 1),
     (0x7f7f_ffff, 0x7f80_0000, 0),
     (0x4f00_0000, 0x4f00_0000, 0x7fff_ffff),
-    (0xbf80_0000, 0xc000_0000, 0x8000_0000),
+    (0xbf80_0000, 0xc000_0000, 0xffff_fffe),
 ];
 
 pub fn grid_text() -> String {
@@ -65,11 +68,11 @@ pub fn grid_text() -> String {
 }
 
 fn func(body: &str) -> String {
-    format!("static int g = 0;\n\nint f1(float a, float b, int k)\n{{\n    int r = 0;\n{}\n    return r * 100 + g;\n}}\n", body)
+    format!("static int g = 0;\n\nint f1(float a, float b, int k)\n{{\n    int r = 0;\n{}\n    return r * 100 + g + k * 10000 + (a < b ? 1000000 : 0);\n}}\n", body)
 }
 
 /// statement forms with one condition `$C`; every loop terminates on every vector
-const FORMS: [(&str, &str); 47] = [
+const FORMS: [(&str, &str); 51] = [
     // ---- conditional expression / logic operators / conversions of the condition
     ("tern", "    r = ($C) ? 1 : 2;"),
     ("tern-vars", "    r = ($C) ? k : (k + 1);"),
@@ -77,6 +80,10 @@ const FORMS: [(&str, &str); 47] = [
     ("and-then", "    r = (($C) && k < 2) ? 1 : 2;"),
     ("or-else", "    r = (k < 2 || ($C)) ? 1 : 2;"),
     ("cast-int", "    r = (int)($C);"),
+    ("tern-select-operands", "    float m = ($C) ? a : b;\n    r = (m > 1.5f) ? 1 : 2;"),
+    ("tern-select-swapped", "    float m = ($C) ? b : a;\n    r = (m == m) ? ((m >= 2.0f) ? 1 : 2) : 3;"),
+    ("tern-bool-literals", "    bool t = ($C) ? true : false;\n    bool u = ($C) ? false : true;\n    r = (t ? 1 : 0) + (u ? 2 : 0);"),
+    ("tern-float-01", "    float m = ($C) ? 1.0f : 0.0f;\n    r = (int)m;"),
     ("bool-local", "    bool t = $C;\n    r = t ? 3 : 4;"),
     ("if-not", "    if (!($C))\n    {\n        r = 1;\n    }"),
     ("if-eq-false", "    if (($C) == false)\n    {\n        r = 1;\n    }\n    else\n    {\n        r = 2;\n    }"),
@@ -177,6 +184,35 @@ pub fn stream() -> Vec<(String, String, String)> {
         ("int", "-k"),
         ("int", "k / -1"),
         ("int", "k % -1"),
+        // float constants at the edges of the format and of the printer
+        ("float", "3.402823466e+38f"),
+        ("float", "-3.402823466e+38f"),
+        ("float", "1.17549435e-38f"),
+        ("float", "1e-45f"),
+        ("float", "1.4e-45f"),
+        ("float", "16777217.0f"),
+        ("float", "16777216.0f"),
+        ("float", "0.1f"),
+        ("float", "0.3f"),
+        ("float", "123456789.0f"),
+        ("float", "1.5e10f"),
+        ("float", "2147483648.0f"),
+        ("float", "4294967296.0f"),
+        ("float", "-0.0f"),
+        ("float", "1e39f"),
+        ("float", "-1e39f"),
+        ("float", "0.1"),
+        ("float", "1e-50"),
+        ("float", "1e300"),
+        ("bool", "a < 3.402823466e+38f"),
+        ("bool", "a == 1e39f"),
+        ("int", "(int)3000000000.0f"),
+        ("uint", "(uint)-1.0f"),
+        ("int", "(int)1e39f"),
+        ("int", "2147483647 + 1"),
+        ("uint", "4294967295u + u"),
+        ("int", "-2147483648"),
+        ("int", "k - 2147483648"),
     ] {
         out.push((format!("conv:{}", e), conv(ret, e), fgrid.clone()));
     }
